@@ -561,6 +561,14 @@ def run(ctx):
                 "emits per-axis segment tables, size-pair rows, full rectangle lists and file-row tables. The real StudyTiling is compared with "
                 "them for every pair critical x (1..bound) in both orders, sampled sub-images and sizes beyond the bound; real tilings are read "
                 "back from disk and reassembled. distinct = distinct (w, h) / sub-image / reassembly case; non-trivial = at least one tile")
+    # --replay FILE: re-run only the case recorded in a counterexample file (the TLC side runs as usual)
+    only = None
+    if ctx.replay_path:
+        rec = json.load(open(ctx.replay_path))
+        only = (rec.get("replay") or {}).get("case")
+        if not isinstance(only, dict):
+            ctx.machinery("replay file %s carries no case" % ctx.replay_path)
+        ctx.note("replayed_case", only)
     # ---- sizes for the end-to-end part and for the directly evaluated 2-D tables
     sizes_q = [(1, 1), (256, 256), (257, 255), (255, 257), (300, 513), (513, 2), (1025, 258)]
     sizes_t = sizes_q + [(512, 512), (511, 1024), (2, 1025), (1023, 1), (514, 513), (1100, 700), (256, 257)]
@@ -572,14 +580,14 @@ def run(ctx):
     big += [(4097, 4096), (8193, 8191), (5000, 7000)] + ([(12000, 9000), (16385, 16383)] if not quick else [])
 
     # ---- TLC: 2-D model(s), axis model, sanity of the slice theorem -- run side by side, <= 8 workers in total
-    img_bounds = [(4, 8, 8)] if quick else [(4, 13, 13), (4, 20, 6), (4, 6, 20), (2, 9, 9), (8, 11, 11)]
+    img_bounds = [(4, 9, 9), (2, 7, 7)] if quick else [(4, 13, 13), (4, 20, 6), (4, 6, 20), (2, 9, 9), (8, 11, 11)]
     sublens = tla.lit(set(crit)) if quick else "(1..1100) \\cup " + tla.lit(set(crit))
     jobs = []
     for (ts, mw, mh) in img_bounds:
         jobs.append(("img", dict(module="MCImg", extra={"MCImg.tla": mc_img()}, cfg_text=IMG_CFG % (ts, mw, mh),
-                                 workers=3 if quick else 6, timeout=7200)))
+                                 workers=3 if quick else 4, timeout=7200)))
     jobs.append(("axis", dict(module="MCAxis", extra={"MCAxis.tla": mc_axis(sublens, crit)}, cfg_text=AX_CFG % maxlen,
-                              workers=4 if quick else 8, timeout=7200)))
+                              workers=3 if quick else 4, timeout=7200)))
     jobs.append(("naive", dict(module="MCNaive", extra={"MCNaive.tla": mc_naive()}, cfg_text=NAIVE_CFG, workers=1, timeout=600,
                                expect_violation=True, count=False)))
 
@@ -588,6 +596,7 @@ def run(ctx):
         kw = dict(kw)
         module = kw.pop("module")
         return name, ctx.tlc(module, **kw)
+    jobs.sort(key=lambda j: 0 if j[0] == "axis" else 1)
     with ThreadPoolExecutor(3 if quick else 2) as ex:
         results = list(ex.map(run_job, jobs))
     axis_run = [r for n, r in results if n == "axis"][0]
@@ -655,28 +664,36 @@ def run(ctx):
     # ---- replay 1: geometry of full images, critical x all in both orders
     pairs = sorted(set([(cw, n) for cw in crit for n in range(1, maxlen + 1)] + [(n, cw) for cw in crit for n in range(1, maxlen + 1)]
                        + list(extra)))
+    all_sub_cases = sub_cases
+    if only is not None:
+        pairs = [p for p in pairs if only.get("w") == p[0] and only.get("h") == p[1] and "path" not in only]
+        sub_cases = [q for q in sub_cases if "path" not in only and [only.get(k) for k in ("W", "H", "ix", "iy", "sw", "sh")] == list(q)]
     chunks = [pairs[i::48] for i in range(48)]
     schunks = [sub_cases[i::24] for i in range(24)]
     nviol = [0]
+
+    perkey = {}
 
     def report(items, counted):
         for sev, key, msg, case in items:
             if sev == "V":
                 nviol[0] += 1
-                ctx.violation("C08:" + key, msg, {"case": case})
+                perkey[key] = perkey.get(key, 0) + 1
+                if perkey[key] <= 100:          # every failing case is counted, the first 100 per monitor are written out
+                    ctx.violation("C08:" + key, msg, {"case": case})
             elif sev == "D":
                 ctx.drift("%s %s" % (key, msg))
             else:
                 ctx.machinery(msg)
     fork = mp.get_context("fork")
     with fork.Pool(6) as pool:
-        for items in pool.imap_unordered(geometry_chunk, chunks):
+        for items in pool.imap(geometry_chunk, chunks):
             report(items, None)
         ctx.count(len(pairs))
         ctx.trace_ok(len(pairs))
         for p in pairs:
             ctx.distinct(("full",) + p)
-        for items in pool.imap_unordered(sub_chunk, schunks):
+        for items in pool.imap(sub_chunk, schunks):
             report(items, None)
         ctx.count(len(sub_cases))
         ctx.trace_ok(len(sub_cases))
@@ -688,28 +705,35 @@ def run(ctx):
         seed = ctx.seed % 100000
         for (mode, fmt) in MODE_FORMATS + ([("I32", "npy"), ("I32", "fits")] if not quick else []):
             for k, dims in enumerate(sizes):
-                kind = "builder" if (k % 3 == 1) else "lib"
+                kind = "builder" if (k % 3 == 2) else "lib"
                 cases.append((kind, mode, fmt, dims, seed + len(cases), ctx.scratch))
         for (mode, fmt, dims) in [("RGB", "png", (300, 513)), ("RGBA", "png", (257, 255)), ("F32", "npy", (513, 2)),
                                   ("F64", "fits", (300, 513)), ("F32", "fits", (255, 257)), ("I16", "fits", (256, 256))]:
             cases.append(("cli", mode, fmt, dims, seed + len(cases), ctx.scratch))
         # sub-images placed inside a larger tiling
-        subpool = [q for q in sub_cases if q[0] >= 255 and q[1] >= 255 and q[4] * q[5] > 1]
+        subpool = [q for q in all_sub_cases if q[0] >= 255 and q[1] >= 255 and q[4] * q[5] > 1]
         nsub = 36 if quick else 400
         for k in range(nsub):
             q = subpool[rng.randrange(len(subpool))]
             mode, fmt = MODE_FORMATS[k % len(MODE_FORMATS)]
             cases.append(("sub", mode, fmt, q, seed + len(cases), ctx.scratch))
-        for (res, case) in pool.imap_unordered(reassembly_case, cases, chunksize=2):
+        if only is not None:
+            cases = [c for c in cases if "path" in only and [c[0], c[1], c[2], list(c[3]), c[4]] ==
+                     [only["path"], only["mode"], only["format"], list(only["dims"]), only["seed"]]]
+        for (res, case) in pool.imap(reassembly_case, cases, chunksize=2):
             ctx.count()
             ctx.trace_ok()
             ctx.distinct(("io", case["path"], case["mode"], case["format"]) + tuple(case["dims"]))
             report(res, None)
     ctx.note("reassembly_cases", len(cases))
+    if nviol[0]:
+        ctx.note("failing_cases_per_monitor", dict(perkey))
 
     # ---- sampled beyond the exhaustive bound: TLC evaluated SegsOK / P2Minimal / Centred for these, the code must agree
     from toasty.study import StudyTiling
     for (w, h), rec in zip(big, tab["big"]):
+        if only is not None and not ("path" not in only and only.get("w") == w and only.get("h") == h):
+            continue
         row = tuple(rec["row"])
         st = StudyTiling(w, h)
         report(compare_geometry("study", {"w": w, "h": h}, st, w, h, row, [tuple(s) for s in rec["sx"]], [tuple(s) for s in rec["sy"]]), None)
